@@ -25,11 +25,11 @@ OPT_TEXT = {1: "[]", 2: "[quoted(true)]", 3: "[ignore_ops(true)]", 4: "[quoted(t
             6: "[quoted(true),ignore_ops(true),numbervars(true),double_quotes(true)]", 7: "[max_depth(1)]"}
 OPTS = [1, 2, 3, 4, 5, 6, 7]
 READ_SPECS = [(), ("n",), ("v", "s")]
-RULE = ("write side: every term of the C15 families vocab3/lists/dvar/rat (thorough: + nests) under the default operator table x 7 "
+RULE = ("write side: every term of the C15 families vocab3/lists/dvar/rat (thorough: their thorough-tier versions) under the default operator table x 7 "
         "option lists ([], [quoted], [ignore_ops], [quoted,max_depth(3)], [numbervars], [quoted,ignore_ops,numbervars,double_quotes], "
         "[max_depth(1)]); terms with variables additionally with variable_names/1 naming every variable. Read side: every soup "
         "string of length <= 3 over the 26-character C17 alphabet (+ ' .') and the quoted text of every term of lists/dvar/rat and "
-        "the size<=2 part of vocab3 (thorough: all of vocab3) x option lists {[], [variable_names], [variables,singletons]} x entry "
+        "the size<=2 part of vocab3 (thorough: all of the quick-tier vocab3 family) x option lists {[], [variable_names], [variables,singletons]} x entry "
         "points {read_term_from_chars/3, read_from_chars/2, read_term/2 on a file}. Non-trivial: the option list is non-empty, or "
         "the text raises a syntax error.")
 LEVEL_TEXT = "bounded exhaustive differential exploration (twin execution on the same machine; files read back by the explorer)"
@@ -42,18 +42,19 @@ BATCH = 200
 
 
 def wfamilies(tier):
-    keep = {"vocab3", "lists", "dvar", "rat"} | ({"nests"} if tier == "thorough" else set())
+    keep = {"vocab3", "lists", "dvar", "rat"}
     return [(n, t, g) for (n, t, g) in S.families(tier) if t == "default" and n in keep]
 
 
 def small_terms(tier):
-    for (n, t, g) in S.families(tier):
+    for (n, t, g) in S.families("quick"):
         if t != "default":
             continue
         if n in ("lists", "dvar", "rat"):
             for d in g():
                 yield d
         elif n == "vocab3":
+            # quick: the size <= 2 part; thorough: all of the quick-tier vocab3 family
             for d in g():
                 if tier == "thorough" or size(d) <= 2:
                     yield d
